@@ -459,9 +459,14 @@ def _variants(node: Node, fname: str, kind: str, info: Any, idx: "Index") -> Lis
                     # the donor carries values its parser received from the surrounding element
                     # (data types); it only fits below an owner with the same context
                     continue
-                cands.append((0 if home_fragments(dn.parents + (dn.obj,)) == home else 1, len(cands), dn))
-        cands.sort(key=lambda t: (t[0], t[1]))
-        ops = [{"op": "donor", "donor_cls": dn.cls, "donor_inst": dn.ordinal} for _, _, dn in cands[:4]]
+                # prefer a donor from the same document and one that differs from every sibling
+                # sub-element of the new owner (so that a writer mixing up two siblings is visible)
+                twin = any(_is_dc(getattr(obj, g.name)) and getattr(obj, g.name) == dn.obj
+                           for g in dataclasses.fields(obj))
+                cands.append((0 if home_fragments(dn.parents + (dn.obj,)) == home else 1,
+                              1 if twin else 0, len(cands), dn))
+        cands.sort(key=lambda t: t[:3])
+        ops = [{"op": "donor", "donor_cls": dn.cls, "donor_inst": dn.ordinal} for *_, dn in cands[:4]]
         return [ops] if ops else []
     return []
 
